@@ -33,7 +33,8 @@ type connTarget struct {
 func init() {
 	register("conn", connMethods, func(p *Program) (target, error) {
 		t := &connTarget{p: p}
-		t.net, t.cl = newCluster(p.Variant % 5)
+		t.net, t.cl = newCluster((p.Variant / 3) % 5)
+		applyProfile(t.cl, p.Variant)
 		for _, th := range p.Threads {
 			for _, m := range th {
 				if m == "Close" {
@@ -124,7 +125,7 @@ func connCall(c *kafka.Conn, variant, k int, m string) (bool, error) {
 	case "WriteMessages":
 		_, err = c.WriteMessages(kafka.Message{Key: []byte("a"), Value: []byte(fmt.Sprintf("m-%d", k))}, kafka.Message{Value: []byte("n")})
 	case "WriteCompressedMessages":
-		codec := kafka.Compression(1 + variant%4).Codec()
+		codec := kafka.Compression(1 + (variant/3)%4).Codec()
 		_, err = c.WriteCompressedMessages(codec, kafka.Message{Key: []byte("a"), Value: []byte(fmt.Sprintf("c-%d", k))}, kafka.Message{Value: []byte("n")})
 	case "SetRequiredAcks":
 		err = c.SetRequiredAcks(1 - 2*(k%2))
@@ -182,7 +183,8 @@ type batchTarget struct {
 func init() {
 	register("batch", batchMethods, func(p *Program) (target, error) {
 		t := &batchTarget{p: p}
-		t.net, t.cl = newCluster(p.Variant % 5)
+		t.net, t.cl = newCluster((p.Variant / 3) % 5)
+		applyProfile(t.cl, p.Variant)
 		return t, nil
 	})
 }
